@@ -237,13 +237,16 @@ where
 
             match stream.as_mut().poll_next(cx) {
                 // Received message from a client stream
-                Poll::Ready(Some((id, Ok(item)))) => {
-                    let mut payload = item.unwrap_message();
+                Poll::Ready(Some((id, Ok(Frame::Message(mut payload))))) => {
                     payload
                         .headers
                         .get_or_insert(HashMap::new())
                         .insert("cid".into(), format!("{id}"));
                     *buffered_req = Some(Frame::Message(payload));
+                }
+                // Requestors may only send messages; anything else is dropped
+                Poll::Ready(Some((_, Ok(_)))) => {
+                    error!("Received non-message frame from requestor")
                 }
                 // Encountered an error whilst receiving a message from an inner stream
                 Poll::Ready(Some((_, Err(e)))) => {
